@@ -43,7 +43,7 @@ def check_verify_wiring(rep, prog):
     rep.saw(fn=fi)
     seen_crypto = 0
     for verdict_truthy, detached in ((False, False), (True, False), (False, True), (True, True)):
-        S, J = ('signature', 'subject') if detached else ('sig', 'subj')
+        S, J = ('signature', 'subject') if detached else ('$1_0', '$1_1')     # loop variables carry canonical names
         scen_args = {'subject': Sym('subject', types={'bytes'}, nonnull=True),
                      'signature': Sym('signature', types={'PGPSignature'}, nonnull=True)} if detached else \
                     {'subject': Sym('subject', types={'PGPUID'}, nonnull=True), 'signature': Const(None)}
@@ -76,6 +76,11 @@ def check_verify_wiring(rep, prog):
             rep.violation('C01.2', 'PGPKey.verify', 'no call self._key.verify(...)',
                           'verify never reaches the key material check', where=fi.where)
             continue
+        if not detached:
+            # the pair examined is the element of the loop over the collected (signature, subject) pairs: $k_0 / $k_1
+            m = re.match(r'^(\$\d+)_0\.hashdata\((\$\d+)_1\)$', crypto_calls[0][1][0] if crypto_calls[0][1] else '')
+            if m and m.group(1) == m.group(2):
+                S, J = m.group(1) + '_0', m.group(1) + '_1'
         for ft, args, kw, line, node in crypto_calls:
             seen_crypto += 1
             w = '%s:%d' % (fi.module.relpath, line)
@@ -119,7 +124,7 @@ def check_verify_wiring(rep, prog):
     pv = prog.method('pgpy.packet.packets', 'PubKeyV4', 'verify')
     outs = Interp(prog, Scenario(inline=lambda f: False)).run(pv)
     for s in outs:
-        exp = 'self.keymaterial.verify(subj, sigbytes, hash_alg)'
+        exp = 'self.keymaterial.verify(%s)' % ', '.join(pv.params[1:])
         rep.check(render(s.ret) == exp, 'C01.2', 'PubKeyV4.verify', 'return %s' % render(s.ret),
                   'the key packet must hand (subj, sigbytes, hash_alg) unchanged to its key material', where=pv.where,
                   expected=exp, found=render(s.ret))
